@@ -309,6 +309,60 @@ func genCheckerProgram(r *Rand, maxMethods int) (string, int, int) {
 			fmt.Fprintf(&b, "println \"t%d=\" + (sfn%d() == :sy__N___%d).inspect\n", i, i, sfnRet[i])
 		}
 	}
+	// constants initialised from different root methods whose call graphs share a helper
+	// that reads one of those constants (a circular reference the checker must report
+	// whatever the order in which the bodies finish), or an unrelated constant (no cycle)
+	nCy := 0
+	if r.Chance(0.3) {
+		nCy = r.Range(2, 4)
+		target := r.Intn(nCy + 1)
+		readName := "CYZ"
+		if target < nCy {
+			readName = fmt.Sprintf("CY%d", target)
+		}
+		var defs []string
+		defs = append(defs, fmt.Sprintf("def cyh(x: Int): Int\n  x + %s\nend\n", readName))
+		via := "cyh"
+		if r.Chance(0.4) {
+			defs = append(defs, "def cym(x: Int): Int\n  cyh(x) * 2\nend\n")
+			via = "cym"
+		}
+		for i := 0; i < nCy; i++ {
+			var fb strings.Builder
+			fmt.Fprintf(&fb, "def cyr%d(x: Int): Int\n", i)
+			for k := Pick(r, []int{0, 0, 1, 5, 25}); k > 0; k-- {
+				fmt.Fprintf(&fb, "  w%d := x + %d\n", k, k)
+			}
+			callee := via
+			if r.Chance(0.3) {
+				callee = "cyh"
+			}
+			fmt.Fprintf(&fb, "  %s(x) + %d\nend\n", callee, i)
+			defs = append(defs, fb.String())
+		}
+		for i := len(defs) - 1; i > 0; i-- {
+			j := r.Intn(i + 1)
+			defs[i], defs[j] = defs[j], defs[i]
+		}
+		b.WriteString("const CYZ: Int = 5\n")
+		for _, d := range defs {
+			b.WriteString(d)
+		}
+		corder := make([]int, nCy)
+		for i := range corder {
+			corder[i] = i
+		}
+		for i := nCy - 1; i > 0; i-- {
+			j := r.Intn(i + 1)
+			corder[i], corder[j] = corder[j], corder[i]
+		}
+		for _, i := range corder {
+			fmt.Fprintf(&b, "const CY%d: Int = cyr%d(%d)\n", i, i, i)
+		}
+		for i := 0; i < nCy; i++ {
+			fmt.Fprintf(&b, "println \"cy%d=${CY%d}\"\n", i, i)
+		}
+	}
 	// top level: call everything
 	for i, m := range g.methods {
 		fmt.Fprintf(&b, "println \"%d=${%s}\"\n", i, m.call(fmt.Sprint(r.Range(0, 5))))
